@@ -373,8 +373,9 @@ def plan(tier):
     if tier == "quick":
         return [("full", ["3x3"], 1, True), ("nopairs", ["3x3"], 2, True), ("nopairs", ["3x3+saved:1,1,2,2", "3x3+saved:0,1,0,2"], 1, True), ("nopairs", ["2x5", "4x4"], 1, True),
                 ("pairs-structural", ["5x2"], 2, True)]
-    return [("full", ["3x3", "2x5", "4x4"], 2, True), ("nopairs", ["3x3"], 3, True), ("nopairs", ["3x3+saved:1,1,2,2", "3x3+saved:0,1,0,2", "4x4+saved:2,2,3,3"], 2, True),
-            ("nopairs", ["4x4"], 3, False), ("nopairs", ["2x3"], 4, True), ("pairs-structural", ["5x2", "2x5", "5x3", "4x4"], 2, True)]
+    return [("full", ["3x3", "2x5"], 2, True), ("nopairs", ["4x4"], 2, True), ("nopairs", ["3x3"], 3, True),
+            ("nopairs", ["3x3+saved:1,1,2,2", "3x3+saved:0,1,0,2", "4x4+saved:2,2,3,3"], 2, True),
+            ("nopairs", ["4x4"], 3, False), ("nopairs", ["2x2"], 4, True), ("pairs-structural", ["5x2", "2x5", "5x3"], 2, True)]
 
 
 def main():
